@@ -59,8 +59,9 @@ SLOT_API = [P_ + 'v2::track_impl::' + f for f in ('hot_cue_at', 'set_hot_cue_at'
 
 PROPS = {
     'C15': {
-        'tus': [EDU] + V2 + V1 + [E + 'v2/track_impl.cpp', E + 'v1/engine_track_impl.cpp'],
-        'functions': SLOT_API + [P_ + 'v2::convert::write::waveform'] + ENC_V1 + [k for k in ENC_V2 if '#loop' in k] + [P_ + 'v2::loops_blob::to_blob', P_ + 'v2::overview_waveform_data_blob::to_blob', P_ + 'v2::track_data_blob::to_blob'] + SEQ[:3],
+        'tus': [EDU] + V2 + V1 + [E + 'v2/track_impl.cpp', E + 'v1/engine_track_impl.cpp', E + 'engine.cpp'],
+        'functions': SLOT_API + [P_ + 'v2::convert::write::waveform', P_ + 'v1::' + ANON + 'to_length_fields', P_ + 'v1::engine_track_impl::set_sample_count', P_ + 'v1::engine_track_impl::set_sample_rate',
+                      P_ + 'util::waveform_quantisation_number', P_ + 'util::calculate_high_resolution_waveform_extents', P_ + 'util::calculate_overview_waveform_extents'] + ENC_V1 + [k for k in ENC_V2 if '#loop' in k] + [P_ + 'v2::loops_blob::to_blob', P_ + 'v2::overview_waveform_data_blob::to_blob', P_ + 'v2::track_data_blob::to_blob'] + SEQ[:3],
         'level': 'proof',
         'assumptions': FORMAT_ASSUME[1:3] + [
             'PARTIAL: only argument-value undefined behaviour in the non-SQL code is decided: (a) the per-slot cue/loop accessors of both schema generations for every int index over any stored slot vector, (b) convert::write::waveform for every combination of absent/present sample count and rate and every waveform length, (c) the buffer sizing of every blob encoder for any slot count and any label length (payload exactly filled, every write inside the allocation)',
